@@ -34,15 +34,12 @@ func has(r drvRow, c, v string) bool {
 	return ok && x == v
 }
 
-// arguments are symbolic one-byte strings (any byte: the solver decides which stored value,
-// if any, each one equals), in the thorough tier also two-byte strings
+// arguments are symbolic strings of 1..2 bytes (thorough: 1..3) of any byte values: the solver
+// decides which stored value, if any, each one equals
 func c11PickArgs(n int) []string {
 	var out []string
 	for i := 0; i < n; i++ {
-		l := 1
-		if verifTier() > 0 {
-			l = 1 + verifChoice("arglen", 2)
-		}
+		l := 1 + verifChoice("arglen", 2+verifTier())
 		out = append(out, verifString("arg", l))
 	}
 	return out
